@@ -17,9 +17,12 @@ EXPLANATION = (
     "list element type, nested struct) with each other and with a frozen parquet.thrift table; "
     "every parser loop skips unknown fields with the field's own type and thrift_skip has an arm "
     "for all 13 compact wire types; struct begin/end are balanced on every non-error path; the "
-    "field-id delta state (last_field_id) is updated on every path of both header codecs; short/long "
-    "header forms of encoder and decoder are complementary; integers go through zigzag on both "
-    "sides. Decides these clauses, not value equality for extreme integers/strings.")
+    "field-id delta state (last_field_id) is updated on every path of both header codecs; the four "
+    "header codecs (field and list header, encoder and decoder) are executed abstractly over their whole "
+    "input space (all 256 header bytes, id deltas -20..40, counts -4..64) and must produce/accept exactly "
+    "the compact-protocol short and long forms; every field header is read/written inside a field-id "
+    "frame (helpers are followed to their callers); field helpers and nested-struct helpers are expanded "
+    "into the struct-level writer/parser before comparison; integers go through zigzag on both sides. Decides these clauses, not value equality for extreme integers/strings.")
 
 PT = "src/thrift/parquet_types.c"
 TE = "src/thrift/thrift_encode.c"
